@@ -85,7 +85,9 @@ def gen_typed(rnd):
         deco, scope = rnd.choice([("@pytest.fixture", 0), ("@pytest.fixture()", 0), ("@fixture", 0), ("@pytest.fixture(scope=\"module\")", 2),
                                   ("@pytest.fixture(scope='session', autouse=True)", 4), ("@pytest.fixture(autouse=True, scope=\"class\")", 1),
                                   ("@pytest_asyncio.fixture", 0), ("@pytest_asyncio.fixture(scope=\"module\")", 2),
-                                  ("@pytest_asyncio.fixture(loop_scope=\"session\")", 0)])
+                                  ("@pytest_asyncio.fixture(loop_scope=\"session\")", 0),
+                                  ("@pytest.fixture(\n    scope=\"module\",\n)", 2), ("@pytest.fixture(\n    autouse=True,\n    name=\"renamed\",\n)", 0),
+                                  ("@pytest_asyncio.fixture(\n    loop_scope=\"session\",\n    scope=\"class\"\n)", 1)])
         lines.append(deco)
         if rnd.random() < 0.3:
             lines.append("@pytest.mark.skip")
